@@ -209,11 +209,16 @@ fn dump_tree(c: &Command) -> String {
         }
         let r = a.get_num_args();
         s.push_str(&format!(
-            ") (n {} {}) (i {}))",
+            ") (n {} {}) (i {})",
             r.map(|r| r.min_values()).unwrap_or(0),
             r.map(|r| r.max_values()).unwrap_or(0),
             a.get_index().unwrap_or(0)
         ));
+        // the value terminator itself (the oracle reads lines that contain it)
+        if let Some(t) = a.get_value_terminator() {
+            s.push_str(&format!(" (t {})", hex(t.as_str().as_bytes())));
+        }
+        s.push(')');
     }
     for sc in c.get_subcommands() {
         s.push(' ');
